@@ -79,7 +79,7 @@ def gen(tier, rnd):
             for single in (1, 0):
                 case([a, b], single=single, gap=gap, cszx=0 if a[0] < 100 and a[1] < 100 else -1)
     # 6. loss, duplication, delay: 3-4 block bodies, faults over the first datagrams
-    V3 = ('d', '2', 'l')
+    V3 = ('d', '2', 'l', 'b')
     small = [((40, -1), 6), ((-1, 40), 6), ((40, 40), 11), ((64, -1), 8), ((-1, 64), 8)]
     for (xf, nd) in small:
         for single in (1, 0):
@@ -110,9 +110,11 @@ def gen(tier, rnd):
                 case([xf], single=single, cszx=0, net=['p'] * k + ['d'] * 40)
                 case([xf], single=single, cszx=0, net=['p'] * k + ['2'] + ['d'] * 40)
             for pos in range(nd + 3):
-                for v in ('2', 'd', 's'):
+                for v in ('2', 'b', 'd', 's'):
                     case([xf], single=single, con=0, cszx=0, net=['p'] * pos + [v])
             case([xf], single=single, con=0, cszx=0, net=['2'] * 24)
+            case([xf], single=single, con=0, cszx=0, net=['b'] * 24)
+            case([xf], single=single, con=1, cszx=0, net=['b'] * 24)
     # two transfers under faults
     for _ in range(600 if thorough else 40):
         a = rnd.choice(((40, -1), (-1, 40), (40, 40), (70, 20)))
